@@ -128,6 +128,18 @@ THEOREMS = [
     "IrVerif.PassInfra.C14_wf_init_inputs",
     "IrVerif.PassInfra.C14_wf_output_fix",
     "IrVerif.PassInfra.C14_wf_replay",
+    "IrVerif.PassInfra.C14_wf_cse",
+    "IrVerif.PassInfra.C14_wf_lift_constants",
+    "IrVerif.PassInfra.C14_wf_lift_sub_inits",
+    "IrVerif.PassInfra.C14_wf_dedup",
+    "IrVerif.PassInfra.C14_names_dedup",
+    "IrVerif.PassInfra.C14_names_lift_constants",
+    "IrVerif.PassInfra.C14_names_kept",
+    "IrVerif.PassInfra.C14_names_initializers",
+    "IrVerif.PassInfra.C14_flag_add_defaults",
+    "IrVerif.PassInfra.C14_fix_add_defaults",
+    "IrVerif.PassInfra.C14_measure_add_defaults",
+    "IrVerif.PassInfra.C14_rounds_add_defaults",
 ]
 ASSUMPTIONS = [
     "passes are modelled as arbitrary functions of an abstract world (identity rule, manager flag, honesty of "
@@ -3041,6 +3053,736 @@ def kpass_case(part: Part, reqs: list, seed: int) -> None:
               kpass=f"{which}:{'raised' if raised else 'changed' if changed else 'unchanged'}")
 
 
+# =========================================================================== I. wave 5
+# CSE / LiftConstants / LiftSubgraphInitializers / Deduplicate(Hashed) as programs over C01's kernel
+# (`passinfra.kpass` with pass = cse | lc | lsi | dd, Model/PassKernel2.lean).  What these passes decide from data outside
+# C01's world (attribute values, tensor contents and sizes) is read off the real objects HERE, independently of the
+# pass, and sent to the kernel program as a parameter.
+
+
+def _k2_tensor(spec):
+    """a tensor attribute / initializer tensor from its spec {"cls": content class, "size": n, "name": str|None}"""
+    import numpy as np
+    import onnx_ir as ir
+
+    return ir.Tensor(np.full((spec["size"],), float(spec["cls"]), dtype=np.float32), name=spec.get("name"))
+
+
+def _k2_attr(a):
+    import onnx_ir as ir
+
+    name, kind, val = a
+    if kind == "int":
+        return ir.AttrInt64(name, val)
+    if kind == "ints":
+        return ir.AttrInt64s(name, list(val))
+    if kind == "float":
+        return ir.AttrFloat32(name, val)
+    if kind == "floats":
+        return ir.AttrFloat32s(name, list(val))
+    if kind == "string":
+        return ir.AttrString(name, val)
+    if kind == "strings":
+        return ir.AttrStrings(name, list(val))
+    if kind == "tensor":
+        return ir.AttrTensor(name, _k2_tensor(val))
+    raise ValueError(kind)
+
+
+def _k2_apply(real, op):
+    """`Real.apply` plus two spellings it does not have: a const tensor with chosen content, a node with plain (non
+    graph) attributes.  Both are the kernel ops `setConst` / `newNode` (+attrs) for the model."""
+    import onnx_ir as ir
+
+    if op["op"] == "setConst" and "tensor" in op:
+        t = _k2_tensor(op["tensor"])
+        real.tid[id(t)] = len(real.tensors)
+        real.tensors.append(t)
+        real.vals[op["v"]].const_value = t
+        return "ok", "", {"op": "setConst", "v": op["v"]}
+    if op["op"] == "newNode" and op.get("plain"):
+        ins = [real.V(i) for i in op["inputs"]]
+        attrs = [ir.AttrGraph(f"body{j}", real.graphs[gi]) for j, gi in enumerate(op.get("attrGraphs", []))]
+        attrs += [_k2_attr(a) for a in op["plain"]]
+        n = ir.Node("", op["opType"], ins, attrs, num_outputs=op["numOutputs"], name=op["name"])
+        real.attr_graphs.update(op.get("attrGraphs", []))
+        real.reg_node(n)
+        for o in n.outputs:
+            real.reg_val(o)
+        mop = {k: v for k, v in op.items() if k != "plain"}
+        mop["attrs"] = [[a.name, real.attr_gs(a)] for a in attrs]
+        return "ok", "", mop
+    return real.apply(op)
+
+
+def _khist2(r: random.Random, which: str) -> tuple[list, int]:
+    """A history over C01's alphabet for the wave-5 kernel programs: repeated nodes (same operator, inputs, attribute
+    values) whose outputs are often graph outputs, operators that differ only in an attribute value, non-deterministic
+    operators, Constant nodes of every attribute kind and size, If-like nodes with subgraphs holding initializers whose
+    names collide with names of the main graph / of each other, initializers with equal / different content, initializers
+    that are inputs / outputs / without const value."""
+    ops: list = []
+    cnt = {"v": 0, "n": 0, "g": 0}
+    sub_names = ["w0", "w1", "s_w", "dup", "x0", "w0_1"]
+
+    def value(name, tensor=None):
+        ops.append({"op": "newValue", "name": name})
+        v = cnt["v"]
+        cnt["v"] += 1
+        if tensor is not None:
+            ops.append({"op": "setConst", "v": v, "tensor": tensor})
+        return v
+
+    def node(op_type, inputs, nout=1, graphs=(), plain=(), name=None):
+        o = {"op": "newNode", "opType": op_type, "name": name if name is not None else r.choice([None, f"n{cnt['n']}"]),
+             "inputs": list(inputs), "numOutputs": nout, "outputs": None, "graph": None}
+        if graphs:
+            o["attrGraphs"] = list(graphs)
+        if plain:
+            o["plain"] = [list(a) for a in plain]
+        ops.append(o)
+        n = cnt["n"]
+        cnt["n"] += 1
+        outs = list(range(cnt["v"], cnt["v"] + nout))
+        cnt["v"] += nout
+        return n, outs
+
+    def graph(inputs, outputs, nodes, inits):
+        ops.append({"op": "newGraph", "inputs": list(inputs), "outputs": list(outputs), "nodes": list(nodes), "inits": list(inits)})
+        g = cnt["g"]
+        cnt["g"] += 1
+        return g
+
+    def tensor_spec():
+        return {"cls": r.choice([1, 1, 2]), "size": r.choice([1, 1, 1, 20]), "name": None}
+
+    def constant(tag):
+        kind = r.random()
+        if kind < 0.5:
+            plain = [("value", "tensor", {"cls": r.choice([1, 2]), "size": r.choice([1, 16, 20]), "name": r.choice([None, None, "@out", "other"])})]
+        elif kind < 0.6:
+            plain = [("value_ints", "ints", [3] * r.choice([2, 16, 20]))]
+        elif kind < 0.67:
+            plain = [("value_int", "int", 5)]
+        elif kind < 0.74:
+            plain = [("value_floats", "floats", [1.5] * r.choice([2, 17]))]
+        elif kind < 0.8:
+            plain = [("value_float", "float", 2.5)]
+        elif kind < 0.85:
+            plain = [("value_strings", "strings", ["a"] * r.choice([2, 16]))]
+        elif kind < 0.9:
+            plain = [("bogus", "int", 1)]
+        else:
+            plain = [("value", "tensor", {"cls": 1, "size": 20, "name": None}), ("extra", "int", 1)]
+        return plain
+
+    def body(depth, outer, tag):
+        inputs = [value(f"{tag}x{i}") for i in range(r.randint(0 if depth else 1, 2))]
+        names = []
+        for i in range(r.randint(0, 4)):
+            nm = r.choice(sub_names) if (depth and r.random() < 0.6) else f"{tag}w{i}"
+            if nm not in names:
+                names.append(nm)
+        inits = [value(nm, tensor=tensor_spec()) for nm in names]
+        avail = inputs + inits + list(outer)
+        if not avail:
+            avail = [value(f"{tag}x0")]
+            inputs = list(avail)
+        local, nodes, made = [], [], []
+        for _ in range(r.randint(2, 7)):
+            k = r.random()
+            src = r.choice(avail + local + local)
+            if made and k < 0.3:
+                op_type, ins, nout, plain = r.choice(made)  # the same computation again
+                n, outs = node(op_type, ins, nout=nout, plain=plain)
+            elif k < 0.42:
+                op_type, ins, nout, plain = r.choice(["Relu", "Neg", "Identity"]), [src], 1, ()
+                n, outs = node(op_type, ins)
+            elif k < 0.5:
+                op_type, ins, nout, plain = "Add", [src, r.choice(avail + local)], 1, ()
+                n, outs = node(op_type, ins)
+            elif k < 0.6:
+                op_type, ins, nout = "LeakyRelu", [src], 1
+                plain = [r.choice([("alpha", "float", 0.5), ("alpha", "float", 0.25), ("alpha", "int", 1), ("alpha", "float", 1.0),
+                                   ("t", "tensor", {"cls": r.choice([1, 2]), "size": r.choice([2, 20]), "name": None})])]
+                n, outs = node(op_type, ins, plain=plain)
+            elif k < 0.66:
+                op_type, ins, nout, plain = r.choice(["RandomUniformLike", "Bernoulli"]), [src], 1, ()
+                n, outs = node(op_type, ins)
+            elif k < 0.72:
+                op_type, ins, nout, plain = "Split", [src], 2, ()
+                n, outs = node(op_type, ins, nout=2)
+            elif k < 0.9 if which == "lc" else k < 0.8:
+                op_type, ins, nout, plain = "Constant", [], 1, constant(tag)
+                n, outs = node(op_type, ins, plain=plain)
+                if r.random() < 0.8:
+                    ops.append({"op": "setName", "v": outs[0], "s": r.choice([f"{tag}c{cnt['n']}", f"{tag}c{cnt['n']}", f"{tag}w0", "s_w"])})
+            elif depth < 2:
+                subs = []
+                for bi in range(r.randint(1, 2)):
+                    si, so, sn, sw = body(depth + 1, avail + local, f"{tag}b{cnt['g']}_{bi}_")
+                    subs.append(graph(si, so, sn, sw))
+                op_type, ins, nout, plain = "If", [src], 1, None
+                n, outs = node("If", [src], graphs=subs)
+            else:
+                op_type, ins, nout, plain = "Neg", [src], 1, ()
+                n, outs = node(op_type, ins)
+            if plain is not None:
+                made.append((op_type, ins, nout, plain))
+            nodes.append(n)
+            local += outs
+            if depth == 0 and r.random() < 0.15:
+                ops.append({"op": "setName", "v": outs[0], "s": r.choice(["s_w", "dup", "w0_1"])})
+        outs = [r.choice(local) for _ in range(r.randint(1, 3))]
+        if r.random() < 0.2 and inputs:
+            outs.append(r.choice(inputs))
+        if r.random() < 0.2 and inits:
+            outs.append(r.choice(inits))
+        outs = list(dict.fromkeys(outs))
+        if r.random() < 0.25:
+            outs.append(r.choice(outs))
+        return inputs, outs, nodes, inits
+
+    mi, mo, mn, mw = body(0, [], "")
+    if mw and r.random() < 0.3:
+        mi = mi + r.sample(mw, 1)
+    main = graph(mi, mo, mn, mw)
+    return ops, main
+
+
+def _k2_classes():
+    table: dict = {}
+
+    def cls(key):
+        return table.setdefault(key, len(table))
+
+    return cls
+
+
+def _k2_akey(real, size_limit: int) -> list:
+    """CSE: per node the class of (domain, overload, attribute names / types / values); absent for a node with a graph
+    attribute or a tensor attribute larger than the limit.  Written from the documentation of the pass (attributes are
+    compared by type and value; floats by bit pattern), not by calling it."""
+    import struct
+
+    cls = _k2_classes()
+    out = []
+    for i, n in enumerate(real.nodes):
+        key, skip = [], False
+        for k, a in n.attributes.items():
+            t = a.type.name
+            if t in ("GRAPH", "GRAPHS"):
+                skip = True
+                break
+            v = a.value
+            if t == "FLOAT":
+                v = struct.pack("<d", v)
+            elif t == "FLOATS":
+                v = tuple(struct.pack("<d", x) for x in v)
+            elif t in ("INTS", "STRINGS"):
+                v = tuple(v)
+            elif t == "TENSOR":
+                if v.size > size_limit:
+                    skip = True
+                    break
+                v = (tuple(v.shape.numpy()), str(v.dtype), v.tobytes())
+            key.append((k, t, v))
+        if not skip:
+            out.append([i, cls((n.domain, n.overload, tuple(sorted(key, key=lambda x: x[0]))))])
+    return out
+
+
+def _k2_tensor_size(node, attr_name, attr) -> int | None:
+    """number of elements of the tensor LiftConstants makes from the attribute (None: it cannot)"""
+    try:
+        if attr_name == "value":
+            return attr.as_tensor().size
+        if attr_name in ("value_int", "value_float", "value_string"):
+            return 1
+        if attr_name in ("value_ints", "value_floats", "value_strings"):
+            return len(attr.value)
+    except Exception:  # noqa: BLE001
+        return None
+    return None
+
+
+def kpass2_case(part: Part, reqs: list, seed: int) -> None:
+    import onnx_ir as ir
+    import onnx_ir.passes.common as cp
+    from onnx_ir import _core
+    from onnx_ir.passes.common import initializer_deduplication as idp
+    from harness import kernel_ops as ko
+
+    r = random.Random(f"kpass2:{seed}")
+    which = ["cse", "lc", "lsi", "dd", "ddh", "cse", "lc", "dd"][seed % 8]
+    ops, main = _khist2(r, which)
+    case = {"kpass2_seed": seed, "pass": which}
+    real = ko.Real(model_sort=True)
+    _FP_KEEP.append(real)
+    mops = []
+    for op in ops:
+        if op["op"] == "newNode" and op.get("plain"):
+            # "@out": the tensor of a Constant carries the name its output is going to get
+            for a in op["plain"]:
+                if a[1] == "tensor" and a[2].get("name") == "@out":
+                    a[2]["name"] = None
+        o, kind, mop = _k2_apply(real, op)
+        if o != "ok":
+            part.count(f"kpass2:history-step-rejected:{op['op']}:{kind}")
+            return
+        mops.append(mop)
+    if which in ("dd", "ddh") and r.random() < 0.25:
+        # an initializer without const value (skipped by the pass)
+        cands = [i for i, v in enumerate(real.vals) if v.is_initializer() and not v.is_graph_input()]
+        if cands:
+            v = r.choice(cands)
+            o, kind, mop = real.apply({"op": "clearConst", "v": v})
+            if o == "ok":
+                mops.append(mop)
+    if ko.wf_oracle(real):
+        part.count("kpass2:history-not-wf")
+        return
+    model = ir.Model(real.graphs[main], ir_version=10)
+    extra: dict = {}
+    weak = False
+    if which == "cse":
+        limit = r.choice([10, 10, 1, 100])
+        p = cp.CommonSubexpressionEliminationPass(size_limit=limit)
+        extra = {"akey": _k2_akey(real, limit), "exact": ko.rauw_many_is_atomic()}
+    elif which == "lc":
+        lift_all, limit = r.random() < 0.5, r.choice([16, 16, 1, 18])
+        p = cp.LiftConstantsToInitializersPass(lift_all_constants=lift_all, size_limit=limit)
+        big, tnamed = [], []
+        for i, n in enumerate(real.nodes):
+            if n.op_type == "Constant" and len(n.attributes) == 1:
+                (an, a), = n.attributes.items()
+                sz = _k2_tensor_size(n, an, a)
+                if sz is not None and sz >= limit:
+                    big.append(i)
+                if an == "value" and a.type.name == "TENSOR":
+                    # the attribute's tensor is called like the output (-> `tnamed`) or has no name: the two spellings
+                    # of the kernel program (a third name is outside it)
+                    a.value.name = n.outputs[0].name if r.random() < 0.35 else None
+                if an != "value" or (a.type.name == "TENSOR" and a.value.name is not None):
+                    tnamed.append(i)
+        extra = {"liftAll": lift_all, "big": big, "tnamed": tnamed}
+    elif which == "lsi":
+        p = cp.LiftSubgraphInitializersToMainGraphPass()
+    else:
+        limit = r.choice([1024, 1024, 10, 1])
+        weak = which == "ddh" and r.random() < 0.4
+        p = cp.DeduplicateInitializersPass(size_limit=limit) if which == "dd" else cp.DeduplicateHashedInitializersPass(size_limit=limit)
+        hcls, tcls = _k2_classes(), _k2_classes()
+        hkey, tkey = [], []
+        for i, v in enumerate(real.vals):
+            cv = v.const_value
+            if cv is None:
+                continue
+            data = cv.tobytes()
+            tkey.append([i, tcls(data)])
+            if cv.size <= limit:
+                dig = (sum(data) % 2) if weak else data
+                hkey.append([i, hcls((str(cv.dtype), tuple(cv.shape.numpy()), dig))])
+        extra = {"hkey": hkey, "tkey": tkey if which == "ddh" else hkey}
+        if which == "dd":
+            extra["tkey"] = hkey
+    case["variant"] = f"{which}{':weak-hash' if weak else ''}"
+    snap0 = real.snapshot()
+    names0 = [v.name for v in real.vals]
+    nvals0 = len(real.vals)
+    raised = None
+    created_v: list = []
+    created_n: list = []
+    orig_ninit, orig_vinit = _core.Node.__init__, _core.Value.__init__
+
+    def _rec_ninit(self, *a, **k):
+        orig_ninit(self, *a, **k)
+        created_n.append(self)
+
+    def _rec_vinit(self, *a, **k):
+        orig_vinit(self, *a, **k)
+        created_v.append(self)
+
+    class _WeakHash:
+        """sha512 replaced by a 1-bit digest: 'hashes match but values differ' becomes reachable"""
+
+        def __init__(self):
+            self.acc = 0
+
+        def update(self, data):
+            self.acc += sum(bytes(memoryview(data).cast("B")) if not isinstance(data, (bytes, bytearray)) else data)
+
+        def hexdigest(self):
+            return str(self.acc % 2)
+
+    class _FakeHashlib:
+        sha512 = _WeakHash
+
+    orig_hashlib = idp.hashlib
+    res = None
+    try:
+        _core.Node.__init__ = _rec_ninit
+        _core.Value.__init__ = _rec_vinit
+        if weak:
+            idp.hashlib = _FakeHashlib
+        try:
+            res = p(model)
+        finally:
+            _core.Node.__init__ = orig_ninit
+            _core.Value.__init__ = orig_vinit
+            idp.hashlib = orig_hashlib
+            # objects the pass created get the next ids in creation order (as the kernel's constructors allocate them);
+            # a tensor the pass attached to a new value gets the next tensor id
+            for v in created_v:
+                real.reg_val(v)
+            for n in created_n:
+                real.reg_node(n)
+            for v in created_v:
+                t = v.const_value
+                if t is not None and id(t) not in real.tid:
+                    real.tid[id(t)] = len(real.tensors)
+                    real.tensors.append(t)
+    except _Timeout:
+        raise
+    except Exception as e:  # noqa: BLE001
+        raised = type(_root_cause(e)).__name__
+    snap1 = real.snapshot()
+    viol = ko.wf_oracle(real)
+    if viol:
+        part.fail(f"kpass/{which}/invariant", f"C01's invariant (use-def / producer / ownership / keys / names) broken after the pass"
+                  f"{' (which raised ' + raised + ')' if raised else ''}: {viol[0]}", {**case, "violations": viol[:4]})
+    d = ko.delta(snap0, snap1)
+    changed = any(d[k] for k in d)
+    if res is not None and not res.modified and changed:
+        part.fail(f"kpass/{which}/modified-false-but-changed", "modified=False but the kernel-visible state changed: "
+                  + next(k for k in d if d[k]), case)
+    # ---- 'names of kept objects are kept' on the real objects (clauses of C14_names_*)
+    if raised is None:
+        g = real.graphs[main]
+        if which in ("dd", "ddh", "lc"):
+            ren = [i for i in range(nvals0) if real.vals[i].name != names0[i]]
+            if ren:
+                part.fail(f"kpass/{which}/names/renamed", f"the pass renamed value(s) {ren[:4]}: {names0[ren[0]]!r} -> {real.vals[ren[0]].name!r}", case)
+        if which == "lsi":
+            for i in range(nvals0):
+                v = real.vals[i]
+                if v.name != names0[i] and not (v.is_initializer() and v._graph is g):
+                    part.fail("kpass/lsi/names/renamed", f"a value that was not lifted was renamed: {names0[i]!r} -> {v.name!r}", case)
+                    break
+        if which == "cse":
+            out0 = [names0[i] for i in snap0["graphs"][main]["outputs"]]
+            out1 = [o.name for o in g.outputs]
+            if out0 != out1:
+                part.fail("kpass/cse/names/graph-outputs", f"the names of the graph outputs changed: {out0} -> {out1}", case)
+        for gg in real.graphs:
+            for k_, v in gg.initializers.items():
+                if not v.name or v.name != k_:
+                    part.fail(f"kpass/{which}/names/initializer", f"initializer registered under {k_!r} is called {v.name!r}", case)
+    if which == "cse" and res is not None:
+        # the LINEAR round bound (not proved: the proved bound cseMu+1 is cubic): the number of modifying rounds is at
+        # most #nodes of the main graph - 1 (the exact maximum on every forest of <= 6 Identity / Relu nodes, see
+        # `cserounds_exhaustive`)
+        n0 = len(snap0["graphs"][main]["nodes"])
+        mod_rounds, cur = (1 if res.modified else 0), res
+        while cur.modified and mod_rounds <= n0 + 2:
+            cur = p(model)
+            mod_rounds += 1 if cur.modified else 0
+        part.count(f"kpass2:cse:modifying-rounds={min(mod_rounds, 4)}")
+        if mod_rounds > max(n0 - 1, 0):
+            part.fail("kpass/cse/rounds-linear", f"{mod_rounds} modifying rounds of CSE on a main graph of {n0} nodes (linear bound: nodes - 1)", case)
+    flag = None if res is None else bool(res.modified)
+    reqs.append(({"m": "passinfra.kpass", "ops": mops, "pass": "dd" if which == "ddh" else which, "g": main, "funcs": [], "fuel": 8, **extra},
+                 {"d": d, "raised": raised is not None, "flag": flag}, {"model": "kpass", "exc": raised, **case}))
+    renamed = sum(1 for i in range(nvals0) if real.vals[i].name != names0[i])
+    if which == "cse":
+        branch = f"cse:identity-inserted={min(len(created_n), 2)}:renamed={min(renamed, 2)}"
+    elif which == "lsi":
+        branch = f"lsi:lifted-and-renamed={min(renamed, 3)}"
+    elif which == "lc":
+        lifted = [v for v in created_v if v.is_initializer()]
+        branch = f"lc:lifted={min(len(lifted), 3)}:tensor-named={sum(1 for v in lifted if v.const_value is not None and v.const_value.name == v.name) > 0}"
+    else:
+        hk, tk = dict(map(tuple, extra["hkey"])), dict(map(tuple, extra["tkey"]))
+        coll = any(hk[a] == hk[b] and tk.get(a) != tk.get(b) for a in hk for b in hk if a < b)
+        branch = f"{which}:digest-collision={coll}"
+    part.case(["kpass2", seed], changed, case if seed % 211 == 0 else None,
+              kpass=f"{case['variant']}:{'raised:' + raised if raised else 'changed' if changed else 'unchanged'}",
+              kpass2_branch=branch)
+
+
+# ---- AddDefaultAttributesPass against Model/PassFlags4.lean (`passinfra.adddef`): flag / fixpoint / measure with the ONNX
+# schema table as a parameter of the model (read off the installed onnx package here, per case)
+
+_ADDDEF_OPS = [("", "LeakyRelu"), ("", "Gemm"), ("", "Softmax"), ("", "Conv"), ("", "Cast"), ("", "Relu"), ("", "LSTM"),
+               ("", "Foo"), ("custom", "LeakyRelu"), ("", "Selu"), ("", "Constant"), ("", "Concat"), ("", "TopK"),
+               ("ai.onnx.ml", "Normalizer"), ("", "LogSoftmax"), ("", "If")]
+
+
+def _adddef_tok():
+    import struct
+
+    table: dict = {}
+
+    def tok(a):
+        t = a.type.name
+        v = a.value
+        if t in ("GRAPH", "GRAPHS"):
+            key = (t, id(v))
+        elif t == "FLOAT":
+            key = (t, struct.pack("<d", v))
+        elif t == "FLOATS":
+            key = (t, tuple(struct.pack("<d", x) for x in v))
+        elif t == "TENSOR":
+            key = (t, str(v.dtype), tuple(v.shape.numpy()), v.tobytes())
+        elif t in ("INTS", "STRINGS"):
+            key = (t, tuple(v))
+        else:
+            key = (t, repr(v))
+        return table.setdefault(key, len(table))
+
+    return tok
+
+
+def _adddef_visit(model):
+    import onnx_ir as ir
+
+    out = list(ir.traversal.RecursiveGraphIterator(model.graph))
+    for f in model.functions.values():
+        out += list(ir.traversal.RecursiveGraphIterator(f))
+    return out
+
+
+def _adddef_build(r: random.Random):
+    import numpy as np
+    import onnx
+    import onnx_ir as ir
+
+    def attrs_for(dom, op, ver):
+        """a random subset of the schema's attributes (some with the default value, some with another one) + strangers"""
+        out = []
+        try:
+            sch = onnx.defs.get_schema(op, ver if ver is not None else 18, domain=dom)
+            defs = list(sch.attributes.items())
+        except Exception:  # noqa: BLE001
+            defs = []
+        for name, d in defs:
+            if r.random() < 0.35:
+                t = int(d.type)
+                if d.default_value.type != onnx.AttributeProto.UNDEFINED and r.random() < 0.5:
+                    out.append(ir.serde.deserialize_attribute(d.default_value))
+                elif t == onnx.AttributeProto.FLOAT:
+                    out.append(ir.AttrFloat32(name, r.choice([0.5, 1.0, 0.01])))
+                elif t == onnx.AttributeProto.INT:
+                    out.append(ir.AttrInt64(name, r.choice([0, 1, -1, 7])))
+                elif t == onnx.AttributeProto.STRING:
+                    out.append(ir.AttrString(name, r.choice(["NOTSET", "forward", "x"])))
+                elif t == onnx.AttributeProto.INTS:
+                    out.append(ir.AttrInt64s(name, [1, 1]))
+                elif t == onnx.AttributeProto.FLOATS:
+                    out.append(ir.AttrFloat32s(name, [1.0]))
+                elif t == onnx.AttributeProto.STRINGS:
+                    out.append(ir.AttrStrings(name, ["Tanh"]))
+                elif t == onnx.AttributeProto.TENSOR:
+                    out.append(ir.AttrTensor(name, ir.Tensor(np.array([1.0], dtype=np.float32))))
+        if r.random() < 0.15:
+            out.append(ir.AttrInt64("stranger", 3))
+        r.shuffle(out)
+        return out
+
+    def nodes(depth, avail, tag):
+        ns, local = [], []
+        for i in range(r.randint(1, 5)):
+            dom, op = r.choice(_ADDDEF_OPS)
+            ver = r.choice([None, None, None, 13, 18, 1, 11, 0])
+            src = r.choice(avail + local)
+            if op == "If":
+                if depth >= 2:
+                    continue
+                branches = []
+                for b in ("then_branch", "else_branch"):
+                    bn, bo = nodes(depth + 1, avail + local, f"{tag}{i}{b[0]}_")
+                    branches.append(ir.AttrGraph(b, ir.Graph([], [bo], nodes=bn, name=f"{tag}{i}{b}")))
+                if r.random() < 0.3:
+                    branches = branches[:1]  # an If that lacks a required attribute
+                n = ir.Node(dom, op, [src], branches, num_outputs=1, version=ver)
+            else:
+                n = ir.Node(dom, op, [src], attrs_for(dom, op, ver), num_outputs=1, version=ver)
+            n.outputs[0].name = f"{tag}v{i}"
+            ns.append(n)
+            local.append(n.outputs[0])
+        if not local:
+            n = ir.Node("", "Relu", [r.choice(avail)], num_outputs=1)
+            n.outputs[0].name = f"{tag}v_only"
+            ns.append(n)
+            local.append(n.outputs[0])
+        return ns, local[-1]
+
+    x = ir.Value(name="x")
+    ns, out = nodes(0, [x], "")
+    imports = {}
+    if r.random() < 0.9:
+        imports[""] = r.choice([13, 18, 21, 6, 11, 1])
+    if r.random() < 0.5:
+        imports["custom"] = 1
+    if r.random() < 0.5:
+        imports["ai.onnx.ml"] = r.choice([1, 3])
+    g = ir.Graph([x], [out], nodes=ns, opset_imports=imports, name="main")
+    funcs = []
+    if r.random() < 0.4:
+        fx = ir.Value(name="fx")
+        fns, fout = nodes(1, [fx], "f_")
+        funcs.append(ir.Function("local", "F", graph=ir.Graph([fx], [fout], nodes=fns, opset_imports={"": 18}, name="F"), attributes=[]))
+    return ir.Model(g, ir_version=10, functions=funcs)
+
+
+def adddef_case(part: Part, reqs: list, seed: int) -> None:
+    import onnx
+    import onnx_ir.passes.common as cp
+
+    r = random.Random(f"adddef:{seed}")
+    if seed % 4 == 0:
+        try:
+            model = build_model(seed, FLAVOURS[(seed // 4) % len(FLAVOURS)])
+            source = "c14"
+        except Exception as e:  # noqa: BLE001
+            part.count("adddef:gen-error:" + type(e).__name__)
+            return
+    else:
+        model = _adddef_build(r)
+        source = "schema-ops"
+    case = {"adddef_seed": seed, "source": source}
+    tok = _adddef_tok()
+    imports = dict(model.graph.opset_imports)
+    visit0 = _adddef_visit(model)
+
+    def dump():
+        return [[[k, tok(a)] for k, a in n.attributes.items()] for n in visit0]
+
+    # ---- the schema table and the measure, read independently of the pass
+    table: dict = {}
+
+    def defs_of(n):
+        ver = n.version if n.version is not None else imports.get(n.domain)
+        if ver is None:
+            return None
+        key = (n.domain, n.op_type, ver)
+        if key not in table:
+            try:
+                sch = onnx.defs.get_schema(n.op_type, ver, domain=n.domain)
+            except onnx.defs.SchemaError:
+                table[key] = None
+            else:
+                import onnx_ir as ir
+
+                defs = []
+                for name, d in sch.attributes.items():
+                    valid = bool(d.default_value and d.default_value.type != onnx.AttributeProto.UNDEFINED)
+                    defs.append({"name": name, "required": bool(d.required),
+                                 "default": tok(ir.serde.deserialize_attribute(d.default_value)) if valid else None})
+                table[key] = defs
+        return table[key]
+
+    def absent():
+        c = 0
+        for n in visit0:
+            for d in defs_of(n) or []:
+                if not d["required"] and d["default"] is not None and d["name"] not in n.attributes:
+                    c += 1
+        return c
+
+    try:
+        mu0 = absent()
+    except Exception as e:  # noqa: BLE001 - a schema default the deserializer does not take: outside the model
+        part.count("adddef:table-error:" + type(e).__name__)
+        return
+    before = dump()
+    node_req = [{"domain": n.domain, "op": n.op_type, "version": n.version, "attrs": [{"k": k, "v": t} for k, t in a]}
+                for n, a in zip(visit0, before)]
+    req = {"m": "passinfra.adddef", "imports": [{"domain": d, "version": v} for d, v in imports.items()], "nodes": node_req,
+           "table": [{"domain": k[0], "op": k[1], "version": k[2], "defs": v} for k, v in table.items() if v is not None]}
+    sorted0 = is_sorted(model)
+    try:
+        res = cp.AddDefaultAttributesPass()(model)
+    except _Timeout:
+        raise
+    except Exception as e:  # noqa: BLE001
+        part.fail(f"adddef/raised/{type(_root_cause(e)).__name__}", f"AddDefaultAttributesPass raised: {str(e)[:160]}", case)
+        return
+    after = dump()
+    mu1 = absent()
+    visit1 = _adddef_visit(model)
+    links = check_links(model)
+    try:
+        res2 = cp.AddDefaultAttributesPass()(model)
+    except _Timeout:
+        raise
+    except Exception as e:  # noqa: BLE001
+        part.fail(f"adddef/second-application-raised/{type(_root_cause(e)).__name__}", f"raised on its own result: {str(e)[:160]}", case)
+        return
+    after2 = dump()
+    # ---- the clauses of C14_flag / fix / measure_add_defaults on the real objects
+    if not res.modified and after != before:
+        part.fail("adddef/modified-false-but-changed", "modified=False but an attribute dictionary changed", case)
+    if res.modified and after == before:
+        part.fail("adddef/modified-true-but-unchanged", "modified=True but no attribute dictionary changed", case)
+    if bool(res.modified) != (mu0 > 0):
+        part.fail("adddef/flag-vs-measure", f"modified={res.modified} but {mu0} optional attribute(s) with a default were absent", case)
+    if mu1 != 0:
+        part.fail("adddef/default-left", f"{mu1} optional attribute(s) with a valid default are still absent after the pass", case)
+    if res2.modified or after2 != after:
+        part.fail("adddef/not-idempotent", f"applied to its own result the pass reports modified={res2.modified} / changes it", case)
+    if [id(n) for n in visit1] != [id(n) for n in visit0]:
+        part.fail("adddef/visit-sequence", "the sequence of visited nodes changed", case)
+    if links:
+        part.fail("adddef/links", "use-def / ownership links broken after the pass: " + links[0], case)
+    if sorted0 and not is_sorted(model):
+        part.fail("adddef/order", "a topologically ordered model is no longer ordered", case)
+    for a0, a1 in zip(before, after):
+        if a1[: len(a0)] != a0:
+            part.fail("adddef/existing-attribute-touched", "an attribute the node already had was changed, removed or moved", case)
+            break
+    obs = {"flag": bool(res.modified), "before": mu0, "after": mu1, "attrs": after, "flag2": bool(res2.modified), "idem": after2 == after}
+    reqs.append((req, obs, {"model": "adddef", **case}))
+    part.case(["adddef", seed], bool(res.modified), case if seed % 211 == 0 else None,
+              adddef=f"{source}:flag={bool(res.modified)}", adddef_absent=min(mu0, 6),
+              adddef_skipped=f"noversion={sum(1 for n in visit0 if n.version is None and n.domain not in imports) > 0}:"
+                             f"noschema={any(v is None for v in table.values())}")
+
+
+def cserounds_exhaustive(part: Part, n: int) -> None:
+    """Exhaustive small scope for the linear round bound of CSE (conjecture, no theorem): every ordered forest of `n`
+    one-output Identity / Relu nodes over one graph input (node i reads the input or the output of an earlier node), every
+    non-empty set of node outputs as graph outputs: the number of modifying rounds is at most n - 1."""
+    import itertools
+
+    import onnx_ir as ir
+    import onnx_ir.passes.common as cp
+
+    worst = 0
+    for parents in itertools.product(*[range(i + 1) for i in range(n)]):
+        for opmask in ((0, (1 << n) - 1) if n > 4 else range(1 << n)):
+            for mask in range(1, 1 << n):
+                x = ir.Value(name="x")
+                vals, nodes = [x], []
+                for i, pa in enumerate(parents):
+                    nd = ir.Node("", "Identity" if not (opmask >> i) & 1 else "Relu", [vals[pa]], num_outputs=1)
+                    nd.outputs[0].name = f"y{i}"
+                    nodes.append(nd)
+                    vals.append(nd.outputs[0])
+                g = ir.Graph([x], [vals[i + 1] for i in range(n) if mask >> i & 1], nodes=nodes, opset_imports={"": 18})
+                model = ir.Model(g, ir_version=10)
+                k = 0
+                while k <= n + 1 and cp.CommonSubexpressionEliminationPass()(model).modified:
+                    k += 1
+                worst = max(worst, k)
+                if k > n - 1:
+                    part.fail("cserounds/linear-bound", f"{k} modifying rounds on {n} nodes",
+                              {"cserounds": n, "parents": list(parents), "ops": opmask, "outputs": mask})
+                    return
+    part.count(f"cserounds:n={n}:max-modifying-rounds={worst}")
+    part.case(["cserounds", n], True, None, cserounds=f"n={n}:max={worst}")
+
+
 # =========================================================================== workers / run
 
 
@@ -3106,6 +3848,12 @@ def _worker(job):
                   inline_case(part, reqs, it)
               elif kind == "kpass":
                   kpass_case(part, reqs, it)
+              elif kind == "kpass2":
+                  kpass2_case(part, reqs, it)
+              elif kind == "adddef":
+                  adddef_case(part, reqs, it)
+              elif kind == "cserounds":
+                  cserounds_exhaustive(part, it)
         except _Timeout as e:
             hung[_nonterm_sig(kind, it)] = hung.get(_nonterm_sig(kind, it), 0) + 1
             part.fail(_nonterm_sig(kind, it), f"a call of the implementation did not return ({e}) in stream {kind}", {"item": str(it)[:300], "stream": kind})
@@ -3249,6 +3997,8 @@ def _compare(ctx: Ctx, req: dict, obs: dict, info: dict, out: dict) -> None:
         elif out.get("d") != obs["d"]:
             what = next((k for k in obs["d"] if out.get("d", {}).get(k) != obs["d"][k]), "?")
             ctx.disagree(f"kpass {info['pass']}: the world after the kernel program differs from the real objects after the pass in {what}", info, _short_json(out.get("d", {}).get(what)), _short_json(obs["d"].get(what)))
+        if "flag" in obs and not obs["raised"] and not out.get("raised") and out.get("flag") != obs["flag"]:
+            ctx.disagree(f"kpass {info['pass']}: the kernel program's modified flag differs from the real pass's", info, out.get("flag"), obs["flag"])
         if not out.get("replay_same") or not out.get("late"):
             ctx.disagree("kpass: the program's world is not the replay of its calls / a late check failed (C14_wf_* say it cannot)", info, {k: out.get(k) for k in ("replay_same", "late")}, None)
         ctx.count(f"kpass:{info['pass']}:calls={min(out.get('calls', 0), 6)}")
@@ -3373,6 +4123,13 @@ def run(ctx: Ctx) -> None:
     # programs over C01's kernel
     jobs += [("inline", c) for c in _chunks([rng.randrange(10**9) for _ in range(ctx.pick(700, 7000))], 16)]
     jobs += [("kpass", c) for c in _chunks([rng.randrange(10**9) for _ in range(ctx.pick(700, 7000))], 16)]
+    # I (wave 5): CSE / LiftConstants / LiftSubgraphInitializers / Deduplicate(Hashed) as kernel programs
+    jobs += [("kpass2", c) for c in _chunks([rng.randrange(10**9) for _ in range(ctx.pick(900, 9000))], 16)]
+    jobs += [("adddef", c) for c in _chunks([rng.randrange(10**9) for _ in range(ctx.pick(600, 6000))], 16)]
+    jobs += [("cserounds", [n]) for n in range(1, ctx.pick(5, 6) + 1)]
+    ctx.exhaustive_scopes.append(
+        f"CSE linear round bound (conjecture, not a theorem): every ordered forest of <= {ctx.pick(5, 6)} one-output Identity/Relu nodes "
+        "(all op assignments up to 4 nodes, all-Identity and all-Relu above) x every non-empty set of graph outputs: modifying rounds <= nodes - 1")
     # D: every pass x {ok, lazy tensor raises, serialization raises, call raises}
     bitems = []
     for _ in range(ctx.pick(150, 1500)):
@@ -3472,6 +4229,10 @@ def _replay_one(ctx: Ctx, case, part, reqs) -> bool:
         inline_case(part, reqs, case["inline_seed"])
     elif isinstance(case, dict) and "kpass_seed" in case:
         kpass_case(part, reqs, case["kpass_seed"])
+    elif isinstance(case, dict) and "kpass2_seed" in case:
+        kpass2_case(part, reqs, case["kpass2_seed"])
+    elif isinstance(case, dict) and "adddef_seed" in case:
+        adddef_case(part, reqs, case["adddef_seed"])
     elif isinstance(case, dict) and "pass" in case and "seed" in case and "fault" not in case:
         table = dict(pass_table())
         apply_pass_case(part, reqs, case["seed"], case.get("flavour", "plain"), case["pass"], table[case["pass"]])
